@@ -30,19 +30,52 @@ def plan(tier, seed):
                 if quick and ai in (1, 3) and to == 3:
                     continue
                 cfgs.append(dict(timeout=to, auto=auto, args=ai, H=8 if quick else 10))
-    return {"cfgs": cfgs, "budget": 3 if quick else 4, "bound": "H=%d instants, <=%d actions" % (8 if quick else 10, 3 if quick else 4)}
+    # a clock far above 1e9 timeouts (relative comparisons of instants break there); argument lists the caller re-uses
+    for auto in (0, 1):
+        cfgs.append(dict(timeout=2, auto=auto, args=2, H=6 if quick else 8, base=2 ** 40))
+        cfgs.append(dict(timeout=2, auto=auto, args=1, H=6 if quick else 8, mutate=1))
+        cfgs.append(dict(timeout=3, auto=auto, args=5, H=6 if quick else 8, mutate=1))
+    # one auto-restart timer left alone for 1200 periods (a single long execution)
+    cfgs.append(dict(endurance=1200))
+    return {"cfgs": cfgs, "budget": 3 if quick else 4, "bound": "one timer running 1200 periods; H=%d instants, <=%d actions" % (8 if quick else 10, 3 if quick else 4)}
+
+
+def endurance(cfg):
+    res = Result()
+    n = cfg["endurance"]
+    env = Environment()
+    fired = []
+    t = Timer(env, 1, lambda *a: fired.append((env.now, a)), auto_restart=True, args=[5])
+    res.ev("C19.noraise"); res.ev("C19.fire", n)
+    res.nontrivial = True
+    try:
+        env.run(until=n + 0.5)
+        t.stop()
+        env.run(until=n + 5)
+    except BaseException as e:  # noqa
+        from mc.net import _where
+        res.bad("C19.noraise", "Timer(auto-restart,long-run):run-raised-%s@%s" % (type(e).__name__, _where(e)), "after %d firings: %r" % (len(fired), e))
+        return res
+    res.digest = (len(fired), fired[-1] if fired else None)
+    if fired != [(k, (5,)) for k in range(1, n + 1)]:
+        k = next((i for i, f in enumerate(fired) if f != (i + 1, (5,))), len(fired))
+        res.bad("C19.fire", "Timer(auto-restart,long-run):periodic-firing-wrong", "%d firings, first deviation at index %d: %r" % (len(fired), k, fired[k:k + 2]))
+    return res
 
 
 def execute(ch, cfg):
+    if cfg.get("endurance"):
+        return endurance(cfg)
     res = Result()
-    env = Environment()
+    base = cfg.get("base", 0)
+    env = Environment(base)
     H = cfg["H"]
     fired = []          # (time, args tuple)
     acts = []           # (time, slot, action)
     holder = {}
     err = [None]
     # reference: set of (pending instant or None, stopped, period, lenient)
-    ref = {"states": {(cfg["timeout"], False, cfg["timeout"], False)}, "in_cb": False}
+    ref = {"states": {(base + cfg["timeout"], False, cfg["timeout"], False)}, "in_cb": False}
     tag = "Timer(%s,args=%s)" % ("auto-restart" if cfg["auto"] else "one-shot", ["None", "list", "scalar", "str", "zero", "list-of-falsy"][cfg["args"]])
     bad = []
 
@@ -103,22 +136,29 @@ def execute(ch, cfg):
         yield env.timeout(t)
         c = ch.choose(len(ACTS), lambda c: "t=%d before the timer's event: %s" % (t, ACTS[c],))
         if c:
-            if any((not s[3]) and s[0] == t for s in ref["states"]):
+            if any((not s[3]) and s[0] == base + t for s in ref["states"]):
                 res.nontrivial = True
-            apply(ACTS[c], t, "before")
+            apply(ACTS[c], base + t, "before")
         yield env.timeout(0)
         c = ch.choose(len(ACTS), lambda c: "t=%d after the timer's event: %s" % (t, ACTS[c],))
         if c:
-            if fired and fired[-1][0] == t:
+            if fired and fired[-1][0] == base + t:
                 res.nontrivial = True
-            apply(ACTS[c], t, "after")
+            apply(ACTS[c], base + t, "after")
     for t in range(1, H + 1):
         env.process(actor(t))
-    holder["t"] = Timer(env, cfg["timeout"], callback, auto_restart=bool(cfg["auto"]), args=ARGS[cfg["args"]])
+    given = ARGS[cfg["args"]]
+    if cfg.get("mutate"):
+        given = list(given)
+    holder["t"] = Timer(env, cfg["timeout"], callback, auto_restart=bool(cfg["auto"]), args=given)
+    if cfg.get("mutate"):
+        # the caller goes on using its list for something else
+        given.clear()
+        given.extend(["other", "things", 3])
     missed = None
     try:
         nsteps = 0
-        while env.peek() < INF and env.peek() <= H + 3:
+        while env.peek() < INF and env.peek() <= base + H + 3:
             nsteps += 1
             if nsteps > 400:
                 bad.append(("C19.once", "%s:timer-keeps-the-simulation-at-one-instant" % tag, "more than 400 kernel steps; t=%r actions %r fired %r" % (env.now, acts, fired[:5])))
